@@ -25,6 +25,7 @@ type FuncResult struct {
 	Trusted  []string
 	Inlined  []string
 	Exec     *Exec
+	Covers   []*Cover
 }
 
 func ghostType(name string) types.Type {
@@ -59,6 +60,7 @@ func verifyFunction(prog *Program, fn *ssa.Function, ctr *Contract, opts VerifyO
 	}()
 	st := &State{pc: "true", heap: map[string]string{}, ghost: map[string]Val{}}
 	st.alloc = x.smt.Fresh("alloc0", SRef)
+	x.alloc0 = st.alloc
 	x.smt.Assert(and(app("bvugt", st.alloc, "#x00000010"), app("bvult", st.alloc, "#x7fff0000")))
 	for _, g := range prog.contracts.Ghosts {
 		t := ghostType(g.Type)
@@ -95,7 +97,9 @@ func verifyFunction(prog *Program, fn *ssa.Function, ctr *Contract, opts VerifyO
 		}
 	}
 	fr.entry = st.clone()
+	x.cover(st, x.prog.relName(fn)+"/cover.entry")
 	x.execBody(fr, st)
+	res.Covers = x.covers
 	res.Obls, res.Warnings, res.Unsupp = x.obls, x.warnings, x.unsupp
 	res.Trusted = sortedKeys(x.trusted)
 	res.Inlined = sortedKeys(x.inlined)
@@ -171,7 +175,14 @@ func (x *Exec) checkFrame(fr *Frame, st *State, ret *ssa.Return) {
 	}
 	for _, c := range ctr.Clauses {
 		if c.Kind == "ghostset" && !c.Spawn {
-			ghosts[strings.TrimPrefix(c.Targets[0], "#")] = true
+			if i := strings.Index(c.Targets[0], "("); i > 0 {
+				if gm := x.prog.contracts.GhostMaps[strings.TrimSpace(c.Targets[0][:i])]; gm != nil {
+					reg, _, _ := ghostMapRegion(gm)
+					regs[reg] = true
+				}
+			} else {
+				ghosts[strings.TrimPrefix(c.Targets[0], "#")] = true
+			}
 		}
 	}
 	var tags []string
@@ -279,7 +290,7 @@ func addrBase(v ssa.Value) ssa.Value {
 		case *ssa.FieldAddr:
 			v = t.X
 		case *ssa.IndexAddr:
-			return t.X
+			v = t.X
 		case *ssa.MakeInterface:
 			v = t.X
 		case *ssa.ChangeType:
@@ -459,7 +470,14 @@ func (c *scanCtx) scan(fn *ssa.Function, blocks []*ssa.BasicBlock) {
 func (c *scanCtx) contractEffects(ctr *Contract, sig *types.Signature, isGo bool, args []ssa.Value) {
 	for _, cl := range ctr.Clauses {
 		if cl.Kind == "ghostset" && cl.Spawn == isGo {
-			c.out.ghosts[strings.TrimPrefix(cl.Targets[0], "#")] = true
+			if i := strings.Index(cl.Targets[0], "("); i > 0 {
+				if gm := c.x.prog.contracts.GhostMaps[strings.TrimSpace(cl.Targets[0][:i])]; gm != nil {
+					reg, _, _ := ghostMapRegion(gm)
+					c.out.whole[reg] = true
+				}
+			} else {
+				c.out.ghosts[strings.TrimPrefix(cl.Targets[0], "#")] = true
+			}
 		}
 		if cl.Kind != "assigns" || cl.Spawn != isGo {
 			continue
